@@ -90,10 +90,15 @@ type negotiatorState struct {
 	// It cannot be derived from whether any state was passed in: wrapping the
 	// connection in a teeConn also returns state before the first list is read.
 	featuresRead bool
+
+	// cfg is the stream config of this session as of the previous call.
+	// It is kept here and not in the negotiator because a Negotiator may be
+	// shared by many sessions.
+	cfg StreamConfig
 }
 
 func negotiator(f func(*Session, *StreamConfig) StreamConfig) Negotiator {
-	cfg := f(nil, nil)
+	initialCfg := f(nil, nil)
 	return func(ctx context.Context, in, out *stream.Info, s *Session, data interface{}) (mask SessionState, rw io.ReadWriter, restartNext interface{}, err error) {
 		nState, ok := data.(negotiatorState)
 		// If no state was passed in, this is the first negotiate call so make up a
@@ -102,8 +107,10 @@ func negotiator(f func(*Session, *StreamConfig) StreamConfig) Negotiator {
 			nState = negotiatorState{
 				doRestart: true,
 				cancelTee: nil,
+				cfg:       initialCfg,
 			}
 		}
+		cfg := nState.cfg
 
 		// This is a secret internal API that lets us use this same negotiator
 		// implementation in the websocket package without copy/pasting the entire
@@ -210,6 +217,7 @@ func negotiator(f func(*Session, *StreamConfig) StreamConfig) Negotiator {
 		}
 
 		cfg = f(s, &cfg)
+		nState.cfg = cfg
 		first := !nState.featuresRead
 		nState.featuresRead = true
 		mask, rw, err = negotiateFeatures(ctx, s, first, websocket, cfg.Features)
